@@ -570,10 +570,9 @@ def in_proved_family(case):
         return False
     f = case["freq"]
     if case.get("byeaster") is not None:
-        # RREasterTop.easter_guard: coarse FREQ, BYDAY without numeric prefix, years inside C19's range (the bound
+        # RRFullTop.full_guard (easter_range): coarse FREQ, years inside C19's range (the bound
         # on the number of passes is approximated by the start year)
-        plain = all(n == 0 for _, n in (case.get("byweekday") or []))
-        return f <= 3 and plain and 1584 <= case["start"]["y"] <= 4090 and \
+        return f <= 3 and 1584 <= case["start"]["y"] <= 4090 and \
             not (f == 2 and week_before_year1(case))
     if f == 2:
         return not week_before_year1(case)
